@@ -17,7 +17,9 @@ chk("C13", "static analysis: slice-provenance (cut kind) vs offset-update typest
     "Inductive invariant 'remainder == original[start..end]' is checked as one proof obligation per Parser-producing function "
     "(15 combinators, 13 parse_*, new, with_start_offset, skip, skip_back): the D1 provenance of the new remainder w.r.t. the "
     "old one (Suffix/Prefix/Middle, computed from the callees' own bodies) must match the start_offset update actually "
-    "performed and the direction set; errors must be built from the pre-operation parser; ParseError::new/other_error/offset "
+    "performed and the direction set (a Parser value the analysis cannot recognise is itself a violation); methods written in "
+    "terms of a looping Parser method (skip, skip_back) compose with the law that method's own row establishes; errors must be "
+    "built from the pre-operation parser; ParseError::new/other_error/offset "
     "and the accessors are decided as tables. Symbolic in the string and in the operation history (induction), which tests "
     "cannot enumerate.",
     "Trusted: rustc MIR; loops are abstracted (loop-modified locals become fresh symbols, others keep their pre-loop value); "
@@ -112,7 +114,8 @@ chk("C19", "static analysis: MIR decision tables of macro expansions in a witnes
     "try_opt!, unwrap_ctx! is expanded in a witness crate whose closures are opaque marker functions; for each variant of the "
     "input the returned term and the exact list of marker calls made on that path are compared with the std method "
     "(so an eager/lazy slip or a wrong payload is a mismatch for all values). min!/max!/_by/_by_key are decided as operand "
-    "tables over Less/Equal/Greater (ties: first for min, second for max). try_rebind!/rebind_if_ok! must be accepted by "
+    "tables over Less/Equal/Greater (ties: first for min, second for max), and each argument expression must be evaluated "
+    "exactly once. try_rebind!/rebind_if_ok! must be accepted by "
     "rustc for arities 1..6 with place / let / typed-let / `_` positions and each position must receive component i of the Ok "
     "payload (argument provenance of a sink call), Err must propagate / skip; components must be assigned left to right "
     "(ORD-REBIND: the same place at positions k and k+1 must end up holding component k+1, every adjacent pair of every "
@@ -128,7 +131,7 @@ chk("C17", "static analysis: compile-reject / compile-accept witness programs wi
     "wrong field/element count (6 shapes), `..` rest (3 shapes)}, "
     "iterator DSL x {double reversal for every reverser and all three macros, unknown methods, consumer in adapter-only "
     "macro, arguments to argument-less methods, argument-shape guards}, parser_method! x {non-literal pattern for all six "
-    "methods, missing default, branch after default, unknown method}. A reject must fail with the guard's own diagnostic "
+    "methods incl. a const/variable/nested macro hidden inside concat!(..), missing default, branch after default, unknown method}. A reject must fail with the guard's own diagnostic "
     "(code / message / guard macro in the expansion back-trace), the twin must compile. Every compile_error! arm of the six "
     "anchored macro files must be hit by the family or be listed as a shadowed fall-back with the reason.",
     "Trusted: rustc's accept/reject verdict (that is the property). The family is finite; shapes outside it (deeper nesting, "
@@ -141,7 +144,8 @@ chk("C18", "static analysis: translation validation of macro expansions against 
     "list of the slice pattern it produced (HIR) must equal rustc's own unescaped bytes of the twin literal, in the prefix "
     "form [bytes.., rem @ ..] and the suffix form [rem @ .., bytes..]; a valid literal the macro rejects is a violation. "
     "The escape table and the line-continuation arm are read from the proc-macro crate's MIR; the strip/find/trim "
-    "expansions are checked structurally (arms in listed order, one-byte drop from the scanning end, empty match breaks the "
+    "expansions are checked structurally, for every way of writing the branches (`=> expr,`, comma-less blocks, a block in the "
+    "middle, blocks with commas) (arms in listed order, one-byte drop from the scanning end, empty match breaks the "
     "trim loop, parser advanced by skip/skip_back of len(remainder)-len(rest), default branch leaves the parser unchanged).",
     "rustc runs the proc macro while expanding the witness (the one place where a konst component executes, inside the "
     "compiler); no konst runtime function is called. The literal family is finite (68 quick / 400+ thorough).",
@@ -165,7 +169,8 @@ chk("C11", "static analysis: MaybeUninit init-typestate (path coverage on the pr
     "discriminant) from reading the counter through the increment to the next iteration or to assume_init executes a "
     "MaybeUninit::new store at the pre-increment index, or a copy loop covers a variable step; no other writer of "
     "the counter - so no control flow in a closure can reach assume_init with an unwritten slot. Element i must be the closure "
-    "applied to input i; ArrayBuilder push/build/new/as_slice follow the inited protocol and only new/push/copies write "
+    "applied to input i; ArrayBuilder push/build/new/as_slice follow the inited protocol (a panicking path of push must leave "
+    "`inited` untouched: the builder outlives the panic) and only new/push/copies write "
     "`inited`; map_! forgets the consumer only after next() returned None and then builds; both collect_const passes call the "
     "same generated function and count identically.",
     "Trusted: rustc MIR and macro expansion; macro hygiene keeps the counter/array unnameable from user tokens. Values "
